@@ -499,9 +499,30 @@ fn oracle_c07(plan: &ResolvePlan, obs: &Observations) -> RunResult {
     res
 }
 
+/// A stall caused by the storm of name-server address lookups (known finding
+/// of C08/C07) says nothing about properties that do not speak of
+/// termination: count the run as inconclusive there.
+pub fn stall_is_inconclusive(r: &mut RunResult) {
+    let storm = r.violations.iter().any(|v| {
+        v.kind == "stall" && v.facts.get("address_lookup_storm") == Some(&Value::Bool(true))
+    });
+    if storm {
+        r.violations.retain(|v| v.kind != "stall");
+        *r.stats.entry("inconclusive.stalled_in_address_lookup_storm".into()).or_insert(0) += 1;
+    }
+}
+
 macro_rules! resolve_property {
     ($ty:ident, $id:expr, $level:expr, $gen:ident, $oracle:ident, $quick:expr, $thorough:expr, $rule:expr, $assume:expr) => {
+        resolve_property!($ty, $id, $level, $gen, $oracle, $quick, $thorough, $rule, $assume, false);
+    };
+    ($ty:ident, $id:expr, $level:expr, $gen:ident, $oracle:ident, $quick:expr, $thorough:expr, $rule:expr, $assume:expr, $storm_inconclusive:expr) => {
         impl Property for $ty {
+            fn triage_abnormal(&self, r: &mut RunResult) {
+                if $storm_inconclusive {
+                    stall_is_inconclusive(r);
+                }
+            }
             fn id(&self) -> &'static str {
                 $id
             }
@@ -574,4 +595,200 @@ resolve_property!(
         "ANY questions at alias owners are skipped (the property does not settle them)",
         "no faults here: the code gives up on the first failed exchange by design; faults are C08's"
     ]
+);
+
+// ======================================================================= C18
+
+pub struct C18;
+
+fn gen_c18(seed: u64, _index: u64, tier: Tier) -> ResolvePlan {
+    let mut r = Rng::new(seed);
+    let mut knobs = random_benign_knobs(&mut r);
+    let ttl_sets: [&[u32]; 4] = [&[300], &[5, 300], &[2, 60, 300], &[1, 5, 3600]];
+    let opts = GenOpts {
+        max_depth: match tier {
+            Tier::Quick => r.range(1, 3),
+            Tier::Thorough => r.range(1, 4),
+        },
+        max_zones: r.range(3, 9) as usize,
+        family_profile: *r.pick(&[0u8, 1, 2, 3, 3, 3]),
+        multi_address_hosts: r.chance(0.3),
+        cross_zone_cnames: true,
+        wildcards: false,
+        out_of_zone_ns: r.chance(0.8),
+        ttl_choices: r.pick(&ttl_sets).to_vec(),
+    };
+    knobs.protocol_mode = (*r.pick(&["only-v4", "prefer-v4", "prefer-v6", "only-v6"])).to_string();
+    knobs.upstream_port = *r.pick(&[53u16, 53, 5353, 1053, 40000]);
+    if r.chance(0.15) {
+        knobs.mode = "forwarding".into();
+    }
+    let u = universe::generate(&mut r, &opts);
+    let nq = r.range(1, 6) as usize;
+    // never ask for a name-server host's own address (see DESIGN 4.10)
+    let ns_hosts: Vec<String> = u.zones.iter().flat_map(|z| z.ns.clone()).collect();
+    let qs: Vec<(String, String)> = universe::interesting_questions(&u, &mut r, nq * 3)
+        .into_iter()
+        .filter(|(n, _)| !ns_hosts.iter().any(|h| universe::names_equal(h, n)))
+        .take(nq)
+        .collect();
+    let small_cache = knobs.cache_size < 512;
+    let mut questions: Vec<QuestionPlan> = qs
+        .into_iter()
+        .map(|(name, qtype)| QuestionPlan {
+            gap_ms: *r.pick(&GAPS),
+            name,
+            qtype,
+            recursive: true,
+            prune_before: small_cache && r.chance(0.5),
+        })
+        .collect();
+    if questions.is_empty() {
+        questions.push(QuestionPlan {
+            gap_ms: 0,
+            name: "nonexistent.com.".into(),
+            qtype: "A".into(),
+            recursive: true,
+            prune_before: false,
+        });
+    }
+    ResolvePlan {
+        knobs,
+        hints_auto: true,
+        local: Vec::new(),
+        universe: u,
+        cache_preload: Vec::new(),
+        questions,
+    }
+}
+
+fn oracle_c18(plan: &ResolvePlan, obs: &Observations) -> RunResult {
+    const SEC: u64 = 1_000_000_000;
+    let mut res = base_result(obs);
+    let mode = plan.knobs.protocol_mode.as_str();
+    let forwarding = plan.knobs.mode == "forwarding";
+    let forwarder: std::net::SocketAddr = resolve_engine::FORWARDER.parse().unwrap();
+    let local = resolve_engine::effective_local(plan);
+    // address -> host
+    let mut host_of: BTreeMap<std::net::IpAddr, String> = BTreeMap::new();
+    for z in &plan.universe.zones {
+        for h in &z.ns {
+            for ip in plan.universe.host_ips(h) {
+                host_of.insert(ip, h.clone());
+            }
+        }
+    }
+    for d in &obs.dests {
+        if forwarding {
+            if d.addr != forwarder {
+                res.violations.push(
+                    Violation::new("c18.not_the_forwarder")
+                        .detail(json!({"dest": d.addr.to_string(), "ctx": d.ctx, "proto": d.proto})),
+                );
+            }
+            continue;
+        }
+        if d.addr.port() != plan.knobs.upstream_port {
+            res.violations.push(Violation::new("c18.wrong_port").detail(json!({
+                "dest": d.addr.to_string(), "configured_port": plan.knobs.upstream_port, "ctx": d.ctx
+            })));
+        }
+        let v4 = d.addr.is_ipv4();
+        if (mode == "only-v4" && !v4) || (mode == "only-v6" && v4) {
+            res.violations.push(
+                Violation::new("c18.wrong_family")
+                    .fact("mode", mode)
+                    .detail(json!({"dest": d.addr.to_string(), "ctx": d.ctx, "proto": d.proto})),
+            );
+        }
+    }
+    if !forwarding && (mode == "prefer-v4" || mode == "prefer-v6") {
+        let pref_v4 = mode == "prefer-v4";
+        let pref_type = if pref_v4 { "A" } else { "AAAA" };
+        for (i, t) in obs.trace.iter().enumerate() {
+            let is_pref = t.ip.is_ipv4() == pref_v4;
+            bump(&mut res.stats, if is_pref { "probe.contacted_preferred_family" } else { "probe.contacted_other_family" });
+            if is_pref {
+                continue;
+            }
+            let Some(host) = host_of.get(&t.ip) else { continue };
+            // does local data or the cache hold a preferred-family address for the host right now?
+            let in_cache = obs.trace_cache.get(i).is_some_and(|snap| {
+                snap.iter().any(|c| {
+                    c.remaining_ns >= SEC
+                        && universe::names_equal(&c.rr.name.to_dotted_string(), host)
+                        && crate::util::show_data(&c.rr.rtype_with_data).starts_with(&format!("{pref_type} "))
+                })
+            });
+            let in_local = local.iter().any(|z| {
+                z.records
+                    .iter()
+                    .any(|r| !r.wild && universe::names_equal(&r.owner, host) && r.rtype() == pref_type)
+            });
+            if in_cache || in_local {
+                res.violations.push(
+                    Violation::new("c18.non_preferred_family_despite_held_address")
+                        .fact("mode", mode)
+                        .fact("held_in", if in_local { "local" } else { "cache" })
+                        .detail(json!({
+                            "host": host, "contacted": t.ip.to_string(), "question": t.question, "ctx": t.ctx
+                        })),
+                );
+            }
+        }
+        // lookups of a server's address try the preferred family first: per
+        // (context, host, local/recursive) every non-preferred attempt must be
+        // matched by an earlier preferred attempt (calls nest, so count)
+        let other_type = if pref_v4 { "AAAA" } else { "A" };
+        let mut balance: BTreeMap<(String, String, bool), i64> = BTreeMap::new();
+        for a in &obs.address_lookups {
+            let mut parts = a.question.split(' ');
+            let name = parts.next().unwrap_or("").to_ascii_lowercase();
+            let ty = parts.next_back().unwrap_or("");
+            let key = (a.ctx.clone(), name.clone(), a.locally);
+            let b = balance.entry(key).or_insert(0);
+            if ty == pref_type {
+                *b += 1;
+            } else if ty == other_type {
+                *b -= 1;
+                bump(&mut res.stats, "probe.address_lookup_fell_back_to_other_family");
+                if *b < 0 {
+                    res.violations.push(
+                        Violation::new("c18.address_lookup_wrong_family_first")
+                            .fact("mode", mode)
+                            .detail(json!({"host": name, "tried": ty, "ctx": a.ctx, "locally": a.locally})),
+                    );
+                }
+            }
+        }
+    }
+    let families: std::collections::BTreeSet<bool> = obs.dests.iter().map(|d| d.addr.is_ipv4()).collect();
+    if families.len() == 2 {
+        bump(&mut res.stats, "probe.both_families_contacted_in_run");
+    }
+    res.nontrivial = !obs.dests.is_empty();
+    if forwarding {
+        bump(&mut res.stats, "probe.forwarding_run");
+    }
+    bump(&mut res.stats, &format!("probe.mode_{mode}"));
+    res.sample = Some(plan_sample(plan));
+    res
+}
+
+resolve_property!(
+    C18,
+    "C18",
+    "exploration",
+    gen_c18,
+    oracle_c18,
+    60_000,
+    1_200_000,
+    "universes whose name-server hosts are v4-only, v6-only, dual or mixed, addresses learnt from hints, glue, cache (earlier questions, with expiry) or nested lookup x four protocol modes x random upstream port x recursive or forwarding; predicate over the simulated transport's log of attempted destinations, with the cache snapshotted at every upstream-query trace point. Non-trivial = at least one upstream destination attempted; distinct = distinct (exchange sequence, result classes)",
+    [
+        "an attempted UDP connect that fails locally (IPv6 peer on the IPv4 wildcard socket) still counts as a destination",
+        "'holds an address' = local zone record or cache entry with at least 1 s left at the moment of the upstream query (snapshot via hooks H4/H5)",
+        "questions never ask for a name-server host's own address, so address lookups in the log are the resolver's own",
+        "a run in which the resolver stalls in the address-lookup storm recorded as a known finding of C08 is counted as inconclusive, not as a verdict on C18"
+    ],
+    true
 );
